@@ -165,3 +165,39 @@ PROPS['C16'] = dict(
     level_text="Lean 4 theorems C16_concatenate (a ++ b), C16_merge (a's keys in a's order then b's new keys in b's order, b's value wins, invariant holds), C16_extract (in request order exactly the requested associations the catalog contains, nothing for an absent key), C16_merge_same (aliased operands). Purity (operands unchanged, no shared mutable state) is by construction in the value model and is validated on the real code by the harness probes.",
     level_note="Purity/aliasing is a runtime storage fact checked dynamically (aft_a / aft_b / indep / stale fields), not proved.",
 )
+
+def coll_key(l):
+    def shape(v, d=0):
+        if not isinstance(v, dict): return '?'
+        t = v.get('t')
+        if t in ('arr', 'coll'):
+            return t[0] + (v.get('k', '')[:2]) + '(' + ','.join(sorted(set(shape(x, d + 1) for x in v.get('xs', [])[:3]))) + ')' if d < 1 else t[0]
+        if t == 'gomap': return 'm'
+        if t == 'assoc': return 'as'
+        return t
+    if l.get('k') == 'collcyc':
+        return ('cyc', l.get('shape'), l.get('max'))
+    return (l.get('k'), shape(l.get('a')), shape(l.get('b')), (l.get('rab') or {}).get('r'), (l.get('rab') or {}).get('out'),
+            l.get('copy', False), l.get('mut', False), l.get('nest'), l.get('max'))
+
+COLL_RULE = ("cases = one ordered pair (or triple) of values, with RankValues and CompareValues asked in both orders, on each value "
+             "with itself, and again on independently rebuilt copies with a fresh collator – all on ONE collator reused for the whole "
+             "run: every pair of boundary values of every primitive kind (bool, byte, unsigned and signed widths, rune, float incl. "
+             "+-0, +-Inf, NaN, subnormals, complex incl. signed zeros, strings incl. non-UTF-8, nil), values nested to depth 3 over "
+             "Go slices and maps, Arrays, Lists, Sets, Stacks, Queues, Catalogs, Maps and associations, rebuilt copies, single-point "
+             "mutations, random and related triples, homogeneously typed Go containers, nests around the depth limit for maxima "
+             "0..3 and 16, and six self-containing shapes; distinct = distinct (line kind, value shapes, result, copy/mutation flag, nest, maximum)")
+
+PROPS['C07'] = dict(
+    id='C07', modules=['CollectionModel.Props.C07'], key=coll_key, nontrivial=lambda l: True, rule=COLL_RULE,
+    exhaustive_subspaces="thorough tier: all pairs of the ~110 boundary leaves (quick: all same-kind pairs, every third cross-kind pair)",
+    level_text="Lean 4 theorems on the universe U (every primitive kind incl. NaN and signed zeros, Go slices, Arrays, Lists, Sets, Stacks, Queues, Catalogs, associations, nested without bound; Go maps and complex numbers excluded): C07_rank_canonical (whenever the fuel/depth-bounded model of rankValues – type-name arm, kind dispatch, swap-and-flip rankArrays, association getters – returns, it returns the comparison of canonical images, for every fuel, depth and maximum), hence C07_refl, C07_mirror, C07_trans, C07_total_preorder; C07_natural, C07_undef_first, C07_prefix_first, C07_collator_unchanged. Negative results: C07_counterexample_complex / C07_full_statement_fails (the full statement is false of model and code: recorded finding). Tied to /repo by the differential run over the whole universe incl. Go maps, complex numbers, depth panics and cyclic values (the model agrees with the code on every generated line).",
+    level_note="PARTIAL: order laws for Go maps (rankMaps sorts keys with the sorter and the ranker itself) are modelled and correspondence-checked but not proved; complex numbers violate transitivity (known finding). Reflection is replaced by constructor tags; integer widths are canonical (one Go type per type name); termination/fuel sufficiency of the model is checked by the run (no hang lines), not proved.",
+)
+
+PROPS['C08'] = dict(
+    id='C08', modules=['CollectionModel.Props.C08'], key=coll_key, nontrivial=lambda l: True, rule=COLL_RULE,
+    exhaustive_subspaces="as C07",
+    level_text="Lean 4 theorems on the universe U: C08_agrees_with_rank (CompareValues true exactly when RankValues Equal), C08_structural (true exactly when the canonical images coincide: rebuilt copies equal, any single changed part unequal), C08_refl / C08_symm / C08_trans, C08_deep_panics (a value nested deeper than the limit ends in the depth-limit panic, never a hang, for every maximum), C08_collator_reusable (calls leave the collator as found, also after a panic). Negative: C08_counterexample_complex (recorded finding). Tied to /repo by the differential run incl. self-containing collections (cycle length 1..3, alone or among siblings) and call sequences on one collator.",
+    level_note="PARTIAL as C07 (Go maps by correspondence only, complex recorded). Process-level crashes (stack exhaustion) are outside the model; the run executes the cyclic cases for real.",
+)
